@@ -41,8 +41,8 @@ def run(ctx, replay):
             ctx.violation(dict(kind="display-under-concurrent-first-use", what=(fatal or "panic or empty display")[:60]),
                           dict(event=e, stderr=r2.stderr[-3000:]))
             continue
-        ctx.violation(dict(kind="time-dispatch" if "t2" in e else "classification", type=e["t"]), dict(event=e))
-    ctx.extra["types_enumerated"] = sum(1 for e in events if "t2" not in e and not e.get("conc"))
+        ctx.violation(dict(kind="time-dispatch" if ("t2" in e or e.get("roll")) else "classification", type=e["t"]), dict(event=e))
+    ctx.extra["types_enumerated"] = sum(1 for e in events if "t2" not in e and not e.get("conc") and not e.get("roll"))
     ctx.extra["types_displayed_concurrently"] = sum(1 for e in events if e.get("conc"))
     ctx.extra["dispatch_pairs"] = sum(1 for e in events if "t2" in e)
     return ctx.finish(
